@@ -483,17 +483,25 @@ pub fn run_c01(tier: &str, sink: &Sink) -> (EngA, AOut) {
     });
     samples.push(json!({"program": render(&e.level2_and(n / 2, n / 3), &[])}));
     samples.push(json!({"program": render(&e.level2_or(na / 2, na - 1), &[Dev::Or { idx: 1, s: "||" }])}));
-    // level 3 over the core: a b c and a b || c
-    if e.al.thorough {
-        (0..m).into_par_iter().for_each(|i| {
-            for j in 0..m {
-                for k in 0..m {
+    // level 3 over the core: a b c, a b || c and a || b || c (quick: every third core comparator)
+    {
+        let idx: Vec<usize> = if e.al.thorough { (0..m).collect() } else { (0..m).step_by(3).collect() };
+        idx.par_iter().for_each(|&i| {
+            for &j in &idx {
+                for &k in &idx {
                     let s = |x: usize| Simple::P(e.core[x].0, e.core[x].1.clone());
                     e.check_c01(&vec![Alt::Set(vec![s(i), s(j), s(k)])], &[], sink, &c, None);
                     e.check_c01(&vec![Alt::Set(vec![s(i), s(j)]), Alt::Set(vec![s(k)])], &[], sink, &c, None);
+                    e.check_c01(&vec![Alt::Set(vec![s(i)]), Alt::Set(vec![s(j)]), Alt::Set(vec![s(k)])], &[], sink, &c, None);
                 }
             }
         });
+    }
+    // numeric family: multi-digit components and relations between two numbers (9 vs 10, ...)
+    {
+        let (num, singles, pairs) = numeric_engine(&e);
+        singles.par_iter().for_each(|p| { num.check_c01(p, &[], sink, &c, None); });
+        pairs.par_iter().for_each(|p| { num.check_c01(p, &[], sink, &c, None); });
     }
     // limit family: MAX-1 / MAX at each component of each form
     limit_family_c01(&e, sink, &c);
@@ -575,6 +583,70 @@ pub fn limit_engine(e: &EngA) -> (EngA, Vec<Prog>) {
         alts: vec![],
     };
     (lim, progs)
+}
+
+/// Numeric family: components from {x, 1, 9, 10} (a one-digit/two-digit boundary with a carry),
+/// every operator x every partial, every hyphen pair, and (thorough) every ordered pair `a b` of
+/// full-triple comparators; dedicated universe with all neighbours of 9/10.
+pub fn numeric_engine(e: &EngA) -> (EngA, Vec<Prog>, Vec<Prog>) {
+    let comps = [Cmp::X, Cmp::N(1), Cmp::N(9), Cmp::N(10)];
+    let ps = partials(&comps, &[("", ""), ("a", "")]);
+    let mut singles: Vec<Prog> = vec![];
+    for op in ALL_OPS {
+        for p in &ps {
+            singles.push(prog_single(op, p));
+        }
+    }
+    let plain: Vec<&Partial> = ps.iter().filter(|p| p.pre.is_empty()).collect();
+    for a in &plain {
+        for b in &plain {
+            singles.push(vec![Alt::Hyphen((*a).clone(), (*b).clone())]);
+        }
+    }
+    let mut pairs: Vec<Prog> = vec![];
+    let full: Vec<&Partial> = ps.iter().filter(|p| p.c.len() >= 2 && p.c.iter().all(|c| !matches!(c, Cmp::X)) && p.pre.is_empty()).collect();
+    let ops = [Op::Lt, Op::Le, Op::Gt, Op::Ge, Op::Tilde, Op::Caret, Op::Bare];
+    let stride = if e.al.thorough { 1 } else { 3 };
+    for (ia, a) in full.iter().enumerate() {
+        for (ib, b) in full.iter().enumerate() {
+            if (ia + ib) % stride != 0 {
+                continue;
+            }
+            for oa in ops {
+                for ob in ops {
+                    pairs.push(vec![Alt::Set(vec![Simple::P(oa, (*a).clone()), Simple::P(ob, (*b).clone())])]);
+                }
+            }
+        }
+    }
+    let mut bvs = vec![];
+    for p in &singles {
+        if let Some(s) = desugar(p) {
+            bvs.extend(comparator_versions(&s));
+        }
+    }
+    let mut vs = critical_points(&bvs);
+    let ns = [0u64, 1, 2, 8, 9, 10, 11, 12];
+    for a in ns {
+        for b in ns {
+            for c in ns {
+                for t in ["", "a", "0"] {
+                    vs.push(ver(a, b, c, t));
+                }
+            }
+        }
+    }
+    let num = EngA {
+        tier: e.tier.clone(),
+        al: alpha(&e.tier),
+        u: Universe::new(vs),
+        all_partials: vec![],
+        nobuild_partials: vec![],
+        reduced: vec![],
+        core: vec![],
+        alts: vec![],
+    };
+    (num, singles, pairs)
 }
 
 fn limit_family_c01(e: &EngA, sink: &Sink, c: &ACounters) {
@@ -677,6 +749,15 @@ pub fn replay(prop: &str, case: &Value, sink: &Sink) {
             let prog = prog_from(&case["prog"]);
             let devs: Vec<Dev> = case["devs"].as_array().map(|a| a.iter().map(dev_from).collect()).unwrap_or_default();
             e.check_c01(&prog, &devs, sink, &c, None);
+            // programs of the numeric family are evaluated on their own universe
+            let multi_digit = prog.iter().any(|a| match a {
+                Alt::Hyphen(x, y) => [x, y].iter().any(|p| p.c.iter().any(|c| matches!(c, Cmp::N(n) if *n >= 9))),
+                Alt::Set(ss) => ss.iter().any(|s| matches!(s, Simple::P(_, p) if p.c.iter().any(|c| matches!(c, Cmp::N(n) if *n >= 9)))),
+            });
+            if multi_digit {
+                let (num, _, _) = numeric_engine(&e);
+                num.check_c01(&prog, &devs, sink, &c, None);
+            }
         }
         ("C01", "limit") => {
             limit_family_c01(&e, sink, &c);
@@ -828,6 +909,11 @@ fn replay_other(prop: &str, e: &EngA, case: &Value, sink: &Sink) {
                 return;
             };
             e.check_c02(&a, &b, case["lists"].as_bool().unwrap_or(true), sink, &c);
+        }
+        ("C03", "numeric-prog") | ("C11", "numeric-prog") | ("C13", "numeric-prog") => {
+            let prog = prog_from(&case["prog"]);
+            let (num, _, _) = numeric_engine(e);
+            num.check_misc_kind(prop, &prog, &[], sink, &c, "numeric-prog");
         }
         ("C03", "limit-prog") | ("C11", "limit-prog") | ("C13", "limit-prog") => {
             let prog = prog_from(&case["prog"]);
@@ -1031,6 +1117,12 @@ pub fn run_misc(prop: &str, tier: &str, sink: &Sink) -> (EngA, AOut) {
             e.check_misc(prop, &e.level2_or(i, j), &[], sink, &c);
         }
     });
+    // numeric family (multi-digit components) on its own universe
+    {
+        let (num, singles, pairs) = numeric_engine(&e);
+        singles.par_iter().for_each(|p| num.check_misc_kind(prop, p, &[], sink, &c, "numeric-prog"));
+        pairs.par_iter().for_each(|p| num.check_misc_kind(prop, p, &[], sink, &c, "numeric-prog"));
+    }
     // limit family (MAX_SAFE_INTEGER at every position of every form, wide programs) on its own universe
     let (lim, lprogs) = limit_engine(&e);
     lprogs.par_iter().for_each(|p| lim.check_misc_kind(prop, p, &[], sink, &c, "limit-prog"));
